@@ -34,6 +34,7 @@ def handle (args : List String) (impl : List String) : String :=
       let npas ← (← look m "npas").toNat?
       let dpas ← parseQ? (← look m "dpas")
       let toldis ← parseQ? (← look m "toldis")
+      let breaks ← (match look m "breaks" with | some b => parseQs? b | none => some [])
       let iv ← (← look m "ivar").toNat?
       let jv ← (← look m "jvar").toNat?
       let sw ← parseQs? (← look o "sw")
@@ -44,7 +45,7 @@ def handle (args : List String) (impl : List String) : String :=
         { x := xs.getD i [], z := (List.range nvar).map (fun a => Z.getD (i + a * nech) none),
           w := W.getD i none, active := act.getD i false }
       let d : Dir := { codir := codir, psmin2 := psmin * psmin, bench := bench, cylrad := cyl,
-                       npas := npas, dpas := dpas, toldis := toldis, order4 := (look m "calc") == some "order4" }
+                       npas := npas, dpas := dpas, toldis := toldis, order4 := (look m "calc") == some "order4", breaks := breaks }
       -- exclude configurations with a decision too close to a boundary (exact margins)
       let ps := pairsOf (samples.filter usable)
       let risky := ps.any fun (a, b) =>
